@@ -256,8 +256,15 @@ pub fn run(a: &Args, rep: &mut Report) {
     let n = ((if q { 160_000.0 } else { 8_000_000.0 }) * a.scale) as u64 / a.nshards;
     let mut batch: Vec<Pre> = Vec::new();
     let with_jit = cfg!(any(feature = "std", feature = "stdlite"));
-    for k in 0..n {
-        let (c, depth) = gen_callgraph(&mut rng);
+    // far local calls (more than 32767 instructions away) with nested calls and calculators
+    let far: Vec<Case> = if cfg!(miri) || a.shard >= 6 { vec![] } else { [33_000usize, 70_000].iter().map(|n| crate::genp::gen_long(&mut rng, *n + a.shard as usize * 17, 4)).collect() };
+    let nfar = far.len() as u64;
+    let mut far = far.into_iter();
+    for k in 0..n + nfar {
+        let (c, depth) = match if k >= n { far.next() } else { None } {
+            Some(c) => (c, 2),
+            None => gen_callgraph(&mut rng),
+        };
         rep.set("calculators", format!("{:?}", c.calc));
         rep.set("planned_depths", format!("{depth}"));
         if let Ok(mut l) = CALC_LOG.lock() {
@@ -282,7 +289,7 @@ pub fn run(a: &Args, rep: &mut Report) {
         }
         rep.max("max_depth_executed", p.rr.max_depth as u64);
         batch.push(p);
-        if batch.len() >= 256 || k + 1 == n {
+        if batch.len() >= 256 || k + 1 == n + nfar {
             check_interp(rep, "C07", &batch, true);
             if with_jit {
                 // evaluations were already counted by check_interp: use a scratch report for counts
